@@ -42,7 +42,7 @@ def StorageInv (H : String → K) (s : List (Item K)) : Prop := ∀ it ∈ s, It
 /-- the config is a dict, and the plugin cache was good for some settings with the hash it is
 filed under and the registry as it is now -/
 def CtxInv (H : String → K) (ctx : Ctx K) : Prop :=
-  NodupKeys ctx.config ∧
+  ctx.registry.WF ∧ NodupKeys ctx.config ∧
   ∀ h m, ctx.cache = some (h, m) →
     ∃ r₀ c₀, h = contextHash Rules.fixed H r₀ c₀ ∧ NodupKeys c₀ ∧ GoodMap ctx.registry c₀ m
 
@@ -62,62 +62,101 @@ theorem goodMap_ext {r r' : Registry} {c : Config} {m : CacheMap} (hr : r.Extend
 theorem CtxInv.goodCache {H : String → K} (hH : HashInj H) {ctx : Ctx K} (hi : CtxInv H ctx) :
     GoodCache ctx.registry ctx.config (contextHash Rules.fixed H ctx.registry ctx.config) ctx.cache := by
   intro m hm
-  obtain ⟨r₀, c₀, hh, hn₀, hg⟩ := hi.2 _ m hm
-  exact goodMap_congr_cfg (contextHash_cfgEq hH hn₀ hi.1 hh.symm) hn₀ hi.1 hg
+  obtain ⟨r₀, c₀, hh, hn₀, hg⟩ := hi.2.2 _ m hm
+  exact goodMap_congr_cfg (contextHash_cfgEq hH hn₀ hi.2.1 hh.symm) hn₀ hi.2.1 hg
 
 theorem CtxInv.of_cacheStep {H : String → K} {ctx : Ctx K} (hi : CtxInv H ctx) {cache' : Cache K}
     (hs : CacheStep ctx.registry ctx.config (contextHash Rules.fixed H ctx.registry ctx.config) ctx.cache cache') :
     CtxInv H { ctx with cache := cache' } := by
-  refine ⟨hi.1, ?_⟩
+  refine ⟨hi.1, hi.2.1, ?_⟩
   intro h m hm
   simp only at hm
   rcases hs.shape with e | ⟨m', e⟩
-  · rw [e] at hm; exact hi.2 h m hm
+  · rw [e] at hm; exact hi.2.2 h m hm
   · rw [e] at hm
     cases hm
-    exact ⟨ctx.registry, ctx.config, rfl, hi.1, hs.good m e⟩
+    exact ⟨ctx.registry, ctx.config, rfl, hi.2.1, hs.good m e⟩
 
 /-! ### registry updates -/
 
-theorem Registry.lookup_set (r : Registry) (cls : PluginClass) (x : String) :
-    (r.set cls).lookup x = if x = cls.provides then some cls else r.lookup x := by
-  induction r with
-  | nil =>
-    simp only [Registry.set, Registry.lookup, List.find?_cons, List.find?_nil]
-    by_cases e : x = cls.provides
-    · simp [e]
-    · have : (cls.provides == x) = false := by simp; exact fun h => e h.symm
-      simp [e, this]
-  | cons a r ih =>
-    simp only [Registry.set]
-    by_cases e : a.provides = cls.provides
-    · simp only [e, beq_self_eq_true, if_true, Registry.lookup, List.find?_cons]
-      by_cases e' : x = cls.provides
-      · simp [e']
-      · have h1 : (cls.provides == x) = false := by simp; exact fun h => e' h.symm
-        have h2 : (a.provides == x) = false := by rw [e]; exact h1
-        simp [e', h1]
-    · have h0 : (a.provides == cls.provides) = false := by simp [e]
-      simp only [h0, Bool.false_eq_true, if_false]
-      unfold Registry.lookup at ih ⊢
-      simp only [List.find?_cons]
-      by_cases e' : a.provides = x
-      · have : ¬ x = cls.provides := fun h => e (e'.trans h)
-        simp [e', this]
-      · have : (a.provides == x) = false := by simp [e']
-        simp only [this]
-        exact ih
+theorem Registry.set_eq (r : Registry) (cls : PluginClass) :
+    r.set cls =
+      if (r.filter fun c => c == cls || !c.overlaps cls).contains cls then r.filter fun c => c == cls || !c.overlaps cls
+      else (r.filter fun c => c == cls || !c.overlaps cls) ++ [cls] := rfl
 
-theorem Registry.extends_set {r : Registry} {cls : PluginClass}
-    (h : r.lookup cls.provides = none ∨ r.lookup cls.provides = some cls) : r.Extends (r.set cls) := by
+/-- `register` keeps the outputs of the registered classes pairwise disjoint -/
+theorem Registry.set_wf {r : Registry} (hw : r.WF) (cls : PluginClass) : (r.set cls).WF := by
+  have hk : Registry.WF (r.filter fun c => c == cls || !c.overlaps cls) := by
+    unfold Registry.WF at *
+    exact hw.sublist List.filter_sublist
+  rw [Registry.set_eq]
+  split
+  · exact hk
+  · rename_i hc
+    unfold Registry.WF at *
+    rw [List.pairwise_append]
+    refine ⟨hk, by simp, ?_⟩
+    intro a ha b hb
+    simp at hb; subst hb
+    have hf := (List.mem_filter.mp ha).2
+    rcases Bool.or_eq_true_iff.mp hf with e | e
+    · have : a = b := by simpa using e
+      subst this
+      exact absurd (List.contains_iff_mem.mpr ha) hc
+    · simpa using e
+
+/-- when `register` replaces nothing, everything that was registered stays registered -/
+theorem Registry.extends_set {r : Registry} {cls : PluginClass} (h : r.replaces cls = false) :
+    r.Extends (r.set cls) := by
+  have hk : (r.filter fun c => c == cls || !c.overlaps cls) = r := by
+    apply List.filter_eq_self.mpr
+    intro c hc
+    unfold Registry.replaces at h
+    have := (List.any_eq_false.mp h) c hc
+    simp only [Bool.and_eq_true, bne_iff_ne, ne_eq, not_and, Bool.not_eq_true] at this
+    by_cases e : c = cls
+    · simp [e]
+    · simp [this e]
   intro x c hx
-  rw [Registry.lookup_set]
-  by_cases e : x = cls.provides
-  · subst e
-    rcases h with h | h
-    · rw [h] at hx; simp at hx
-    · rw [h] at hx; simp [hx]
-  · simp [e, hx]
+  rw [Registry.set_eq, hk]
+  split
+  · exact hx
+  · unfold Registry.lookup at *
+    rw [List.find?_append, hx]
+    rfl
+
+/-- `register(cls)` does not touch the registration of a data type that `cls` does not provide and
+whose class shares no output with `cls` -/
+theorem Registry.lookup_set_other {r : Registry} {cls : PluginClass} {x : String} (hx : cls.makes x = false)
+    (hc : ∀ c, r.lookup x = some c → c.overlaps cls = false ∨ c = cls) : (r.set cls).lookup x = r.lookup x := by
+  have hk : Registry.lookup (r.filter fun c => c == cls || !c.overlaps cls) x = r.lookup x := by
+    unfold Registry.lookup at hc ⊢
+    induction r with
+    | nil => rfl
+    | cons a r ih =>
+      rw [List.find?_cons] at hc ⊢
+      by_cases ha : a.makes x = true
+      · simp only [ha] at hc ⊢
+        have hp : (a == cls || !a.overlaps cls) = true := by
+          rcases hc a rfl with e | e
+          · simp [e]
+          · simp [e]
+        rw [List.filter_cons, hp]
+        simp only [if_true, List.find?_cons, ha]
+      · have ha' : a.makes x = false := by simpa using ha
+        simp only [ha'] at hc ⊢
+        rw [List.filter_cons]
+        split
+        · rw [List.find?_cons, ha']; exact ih hc
+        · exact ih hc
+  rw [Registry.set_eq]
+  split
+  · exact hk
+  · unfold Registry.lookup at hk ⊢
+    rw [List.find?_append, hk]
+    cases r.find? (·.makes x) with
+    | some c => rfl
+    | none => simp [hx]
 
 /-! ### `findItem`, `findOpts`, `addItems` -/
 
@@ -195,7 +234,8 @@ theorem components_succ (rules : Rules) (H : String → K) (m : CacheMap) (cfg :
               .ok (mergeLineage (ownEntry inst.cls pc) (deps.map (·.1)),
                 (deps.map (·.2)).flatten ++
                   (if ff.isEmpty && ffo.isEmpty then
-                    [⟨d, keyOf H inst.lineage, inst.lineage, mergeLineage (ownEntry inst.cls pc) (deps.map (·.1))⟩]
+                    inst.cls.outputs.map fun o =>
+                      ⟨o, keyOf H inst.lineage, inst.lineage, mergeLineage (ownEntry inst.cls pc) (deps.map (·.1))⟩
                    else [])) := rfl
 
 /-- the outcomes of `components (n+1) d` -/
@@ -209,7 +249,8 @@ theorem components_succ_ok {rules : Rules} {H : String → K} {m : CacheMap} {cf
           missingOption inst.cls cfg = false ∧ pluginConfig inst.cls cfg = .ok pc ∧
           prov = mergeLineage (ownEntry inst.cls pc) (deps.map (·.1)) ∧
           new = (deps.map (·.2)).flatten ++
-            (if ff.isEmpty && ffo.isEmpty then [⟨d, keyOf H inst.lineage, inst.lineage, prov⟩] else []))) := by
+            (if ff.isEmpty && ffo.isEmpty then
+              inst.cls.outputs.map fun o => (⟨o, keyOf H inst.lineage, inst.lineage, prov⟩ : Item K) else []))) := by
   rw [components_succ] at h
   split at h
   · simp at h
@@ -292,7 +333,8 @@ theorem components_sound {H : String → K} (hH : HashInj H) {r : Registry} {c :
           obtain ⟨res, hres, rfl⟩ := List.mem_map.mp hl'
           obtain ⟨x, _, hx⟩ := mapE_ok_mem' hd res hres
           exact (ih x res.1 res.2 hx).2.2 it hil
-        · simp at e; subst e
+        · simp at e
+          obtain ⟨o, _, rfl⟩ := e
           exact ⟨rfl, hprov.trans hlin₀.symm, hnod, hpn⟩
 
 /-- whatever a brand-new context (empty directory) manages to compute, a context with any good
